@@ -118,8 +118,52 @@ def main(chk: Check):
         ["ids", "status", "resolution", "dupe_of", "summary", "assigned_to", "whiteboard", "deadline",
          "cc", "keywords", "blocks", "depends_on", "see_also", "groups", "flags", "comment",
          "cf_stabilisation_atoms", "cf_runtime_testing_required"])}
-    uw_cases = []
+    uw_cases, wire_bad = [], []
     rng = chk.rng
+
+    def uw_case(kw, chs, nfl):
+        res = impl_call(lambda: [keyid.get(k, 99) for k in ch.BugUpdate(**kw).to_wire([1]).keys()])
+        scal = [kw.get(f) is not None for f in
+                ("status", "resolution", "dupe_of", "summary", "assigned_to", "whiteboard", "deadline")]
+        term = ("{| scalars := %s; changes := %s; nflags := %s; has_comment := %s; has_pkglist := %s; has_rtr := %s |}"
+                % (clist([cbool(b) for b in scal], "bool"), clist([c_change(c) for c in chs], "change"),
+                   cnat(nfl), cbool("comment" in kw), cbool("package_list" in kw),
+                   cbool("runtime_testing_required" in kw)))
+        uw_cases.append((term, res))
+        chk.nontrivial(("uw", tuple(scal), tuple(chs), nfl, "comment" in kw, "package_list" in kw,
+                        "runtime_testing_required" in kw))
+        # (B) directly on the implementation: exactly the fields that were set are on the wire
+        want = [0] + [1 + i for i, b in enumerate(scal) if b] \
+            + [8 + i for i, c in enumerate(chs) if (c[0] or c[1] or c[2] is not None)] \
+            + ([14] if nfl else []) + ([15] if "comment" in kw else []) \
+            + ([16] if "package_list" in kw else []) + ([17] if "runtime_testing_required" in kw else [])
+        if isinstance(res, Err) or sorted(res) != want:
+            wire_bad.append({"fields_set": sorted(k for k in kw if not (k in ("cc", "keywords", "blocks", "depends_on", "see_also", "groups") and not kw[k]) and not (k == "flags" and not kw[k])),
+                             "values": {k: repr(v) for k, v in kw.items()}, "wire_key_ids": res, "expected_key_ids": want})
+
+    # fixed family: every field set ALONE (and every pair of the falsy-valued ones), with values whose
+    # truthiness is False where the type allows it ("" / empty package list / empty set): a field that was
+    # set must appear on the wire whatever its truthiness
+    empty6 = [((), (), None)] * 6
+    lone = {"summary": ["", "s"], "assigned_to": ["", "x@y"], "whiteboard": ["", "w"],
+            "deadline": [datetime.date(2026, 1, 2)], "comment": [ch.NewComment("")],
+            "package_list": [PackageList(""), PackageList("a/b x86")],
+            "runtime_testing_required": [RuntimeTesting.UNSET], "status": [Status.CONFIRMED]}
+    falsy = [("summary", ""), ("assigned_to", ""), ("whiteboard", ""), ("package_list", PackageList(""))]
+    for f, vals in lone.items():
+        for v in vals:
+            uw_case({f: v}, list(empty6), 0)
+    for i, (f, v) in enumerate(falsy):
+        for g, w in falsy[i + 1:]:
+            uw_case({f: v, g: w}, list(empty6), 0)
+    uw_case({f: v for f, v in falsy}, list(empty6), 0)
+    uw_case({}, list(empty6), 0)
+    for j, name in enumerate(("cc", "keywords", "blocks", "depends_on", "see_also", "groups")):
+        for c in (((), (), ()), ((1,), (), None), ((), (2,), None)):     # setting() clears the field: falsy-looking, set
+            chs = list(empty6)
+            chs[j] = c
+            uw_case({name: L(*c)}, chs, 0)
+    uw_case({"flags": (ch.FlagChange("f", FlagStatus.GRANTED),)}, list(empty6), 1)
     for _ in range(chk.n(300, 3000)):
         st = rng.choice([None, "open", "fixed", "dup"])
         kw = {}
@@ -146,15 +190,7 @@ def main(chk: Check):
             kw["package_list"] = PackageList("")
         if rng.random() < 0.4:
             kw["runtime_testing_required"] = RuntimeTesting.UNSET
-        res = impl_call(lambda: [keyid.get(k, 99) for k in ch.BugUpdate(**kw).to_wire([1]).keys()])
-        scal = [kw.get(f) is not None for f in
-                ("status", "resolution", "dupe_of", "summary", "assigned_to", "whiteboard", "deadline")]
-        term = ("{| scalars := %s; changes := %s; nflags := %s; has_comment := %s; has_pkglist := %s; has_rtr := %s |}"
-                % (clist([cbool(b) for b in scal], "bool"), clist([c_change(c) for c in chs], "change"),
-                   cnat(nfl), cbool("comment" in kw), cbool("package_list" in kw),
-                   cbool("runtime_testing_required" in kw)))
-        uw_cases.append((term, res))
-        chk.nontrivial(("uw", tuple(scal), tuple(chs), nfl))
+        uw_case(kw, chs, nfl)
     chk.count("uwire", len(uw_cases))
     chk.sample({"stream": "uwire", "input": uw_cases[0][0], "impl": uw_cases[0][1]})
 
@@ -180,8 +216,10 @@ def main(chk: Check):
                           {"what": f"implementation and Model_C39 disagree on stream '{name}' "
                                    "(theorems of Prop_C39 no longer speak about this code)",
                            "input": cases[i][0], "implementation": cases[i][1]},
-                          no_input=not (py_bad or spec_bad))
+                          no_input=not (py_bad or spec_bad or wire_bad))
     # ---- property failures (B): concrete inputs
+    for b in wire_bad[:3]:
+        chk.violation("property", {"what": "BugUpdate.to_wire does not carry exactly the fields that were set", "input": b})
     for b in py_bad[:3]:
         chk.violation("property", {"what": "a | b is not 'a then b' on a concrete list", "input": b})
     if spec_bad and not py_bad:
